@@ -32,6 +32,13 @@ noncomputable def target (ext : Ext ℝ) (p : Path) (s : Setup ℝ) (v : ℝ) : 
   | .polingPeriod => (computeSign ext s.signal s.pump s.crystal).map fun _ => |v|
   | _ => .ok v
 
+/-- how the named field is rounded: 4 decimals; an azimuth that rounds up to 360.0000 is written
+as 0 -/
+noncomputable def fieldRound (p : Path) (x : ℝ) : ℝ :=
+  match p with
+  | .signalPhi | .idlerPhi => wrap360 (sigfigs x)
+  | _ => sigfigs x
+
 theorem poling_new_period (p : ℝ) (neg : Bool) (apod : Apod ℝ) :
     Poling.toCfg (Poling.new (signMul neg (Transc.abs p)) apod)
       = .config (.param (sigfigs (|p| / micro))) (Apod.toCfg apod) := by
